@@ -342,6 +342,7 @@ def jobs(tier):
         add('pda_random%d' % seed, job_pda, fam='random', seed=seed, limit=3, maxlen=2, nsym=4 if q else 7, timeout=tmo)
     add('cfg_2vars', job_cfg, variables=['S', 'A'], maxlen=3 if q else 4, timeout=tmo)
     add('cfg_3vars', job_cfg, variables=['S', 'A', 'B'], pairs=[['A', 'B']] if q else [['A', 'B'], ['B', 'B']], maxlen=3, timeout=tmo)
+    add('cfg_3vars_swapped', job_cfg, variables=['S', 'A', 'B'], pairs=[['A', 'B'], ['B', 'A']], maxlen=2 if q else 3, timeout=tmo)
     add('cfg_T', job_cfg, variables=['S', 'T'], maxlen=3 if q else 4, timeout=tmo)
     return J
 
